@@ -55,7 +55,7 @@ typedef struct {
     double thresh; int usepr, symmetric, fact, trans;
     long pseed; double pprob; long pmaxus;      /* perturbation */
     int trace, dump_lu, destroy; unsigned timeout;
-    long *colptr, *rowind, *permc, *permr; double *vals, *rhs; void *permc_used; long *etree_out;
+    long *colptr, *rowind, *permc, *permr; double *vals, *rhs, *rhs2; int trans2; void *permc_used; long *etree_out;
 } case_t;
 
 static int ints_equal(const int_t *a, const long *b, long k) { long i; for (i = 0; i < k; ++i) if ((long) a[i] != b[i]) return 0; return 1; }
@@ -255,7 +255,7 @@ int main(void)
     case_t c; long defienv[8] = {20, 6, 200, 200, 100, -50, -50, -30};
     signal(SIGALRM, on_alarm);
     memset(&c, 0, sizeof c);
-#define RESET() do { free(c.colptr); free(c.rowind); free(c.permc); free(c.permr); free(c.vals); free(c.rhs); memset(&c, 0, sizeof c); \
+#define RESET() do { free(c.colptr); free(c.rowind); free(c.permc); free(c.permr); free(c.vals); free(c.rhs); free(c.rhs2); memset(&c, 0, sizeof c); \
         strcpy(c.driver, "gssv"); c.nprocs = 1; c.colperm = 0; memcpy(c.ienv, defienv, sizeof defienv); c.thresh = 1.0; c.timeout = 120; c.dump_lu = 1; c.destroy = 1; c.fact = 0; c.trans = 0; } while (0)
     RESET();
     while ((len = getline(&line, &cap, stdin)) > 0) {
@@ -270,6 +270,8 @@ int main(void)
         else if (!strcmp(key, "rowind")) c.rowind = read_longs(rest, c.nnz);
         else if (!strcmp(key, "vals")) c.vals = read_doubles(rest, c.nnz * NCOMP);
         else if (!strcmp(key, "rhs")) c.rhs = read_doubles(rest, c.m * c.nrhs * NCOMP);
+        else if (!strcmp(key, "rhs2")) c.rhs2 = read_doubles(rest, c.m * c.nrhs * NCOMP);
+        else if (!strcmp(key, "trans2")) c.trans2 = atoi(rest);
         else if (!strcmp(key, "nprocs")) c.nprocs = atol(rest);
         else if (!strcmp(key, "colperm")) c.colperm = atoi(rest);
         else if (!strcmp(key, "permc")) c.permc = read_longs(rest, c.n);
